@@ -17,7 +17,7 @@ PROPERTY = 'C04'
 RULE = ('Typed grammar restricted to the dense-time operators (arithmetic, comparisons, Boolean, once/historically/eventually/always/'
         'since/until bounded and unbounded) x piecewise-constant signals on a rational grid (quantum 1/4; thorough also 1/8, 1/2), '
         'break-points of different variables drawn independently (unaligned), 1-8 samples per variable; lanes main (t0=0), shifted '
-        '(t0>0, no variable-free predicate), long (bounds up to 24 cells, longer than the signals), arith, staircase (5-12 samples in long monotone runs under windows up to 16 cells), big (8-20 samples, three variables) and units (bounds with explicit units / the case restated in another default unit, machinery of C08) bigint (integer samples of the order of 1.7e18 whose small differences are compared with constants, read at the sampling instants against a reference in exact integer arithmetic) and reevaluate (one specification object evaluated repeatedly on the same sample list objects, edited in place by the caller between the calls). Oracle: grid reference R-ct; '
+        '(t0>0, no variable-free predicate), long (bounds up to 24 cells, longer than the signals), arith, staircase (5-12 samples in long monotone runs under windows up to 16 cells), big (8-20 samples, three variables) and units (bounds with explicit units / the case restated in another default unit, machinery of C08) surplus (the call carries a further signal that the specification does not read, declared or not, starting later than the others) and bigint (integer samples of the order of 1.7e18 whose small differences are compared with constants, read at the sampling instants against a reference in exact integer arithmetic) and reevaluate (one specification object evaluated repeatedly on the same sample list objects, edited in place by the caller between the calls). Oracle: grid reference R-ct; '
         'the returned sample list must have non-decreasing finite time stamps, start at t0 and, read as a right-continuous step '
         'function, equal R-ct at every cell start, cell midpoint and output time stamp of [t0, earliest last sample]. '
         'Non-trivial = >=1 temporal operator and (>=2 variables with unaligned break-points or a bounded operator); '
@@ -110,8 +110,19 @@ def check(case, early_start_is_known=False):
     except Undefined:
         return DISCARD('undefined', labels)
     text = dense_text(f, q)
-    o = run_ct_off(text, feed, to_time(sig, q))
-    desc = 'spec: %s\nsignals: %s' % (text, to_time(sig, q))
+    sigs_t = to_time(sig, q)
+    declared = list(feed)
+    sur = case.get('surplus')
+    if sur:
+        # a further signal in the call that the specification does not read (declared or not); it may start later and end
+        # earlier than the others - the domain of the result is that of the signals the specification reads
+        sigs_t = dict(sigs_t)
+        sigs_t[sur['name']] = [[float(Fraction(int(k)) * q), float(x)] for k, x in sur['signal']]
+        if sur['declared']:
+            declared.append(sur['name'])
+        labels.append('surplus-signal')
+    o = run_ct_off(text, declared, sigs_t)
+    desc = 'spec: %s\nsignals: %s' % (text, sigs_t)
     if o[0] != 'ok':
         return FAIL('exc:%s@%s' % (o[1], o[4]), desc + '\nraised %s: %s at %s' % (o[1], o[3], o[4]), labels)
     out = o[1]
@@ -242,6 +253,15 @@ def cand_reevaluate(case):
             yield c
 
 
+@st.composite
+def surplus_cases(draw, tier):
+    c = draw(ct_cases(_profile(tier, max_depth=3), tier))
+    from ..dense import grid_signal
+    k0 = draw(st.sampled_from([0, 1, 3, 7, 20, 40]))
+    c['surplus'] = {'name': 'extra_v', 'declared': draw(st.booleans()), 'signal': draw(grid_signal(k0, max_samples=3))}
+    return c
+
+
 def _units_lane(tier):
     from . import C08
     return C08.dense_cases(tier)
@@ -301,6 +321,7 @@ LANES = [
     Lane('shifted', lambda tier: ct_cases(_profile(tier, tun=(), tbin=()), tier, shifted=True), check, 1000, 15000, ct_candidates),
     # t0 > 0 under bounded operators: values on the domain are checked; the early start is the open finding of KNOWN_FINDINGS.txt
     Lane('shifted_bounded', lambda tier: ct_cases(_profile(tier, max_depth=3), tier, shifted=True), check_shifted_bounded, 1000, 15000, ct_candidates),
+    Lane('surplus', lambda tier: surplus_cases(tier), check, 800, 8000, ct_candidates),
     Lane('long', lambda tier: ct_cases(_profile(tier, max_bound=24), tier, max_samples=4), check, 1000, 15000, ct_candidates),
     Lane('arith', lambda tier: ct_cases(_profile(tier, un_temp=(), bin_temp=(), tun=(), tbin=(), nvars=3, max_depth=4), tier), check, 800, 10000, ct_candidates),
 ]
